@@ -82,3 +82,44 @@ def chainCmp {V} (a : Asrt V) (op : CmpOp) (z : Node V) : Asrt V :=
   | _ => a
 
 end AF
+
+namespace AF
+
+/-! ## where assertions live: the tree of prior-model nodes
+
+`instance_for_arguments` checks the assertions of a node (`check_assertions`) and then recurses
+into every direct prior-model attribute (`Model`, `Collection`, compound / modified priors, array
+entries), each of which checks its own assertions before building. `ATree` is that recursion
+tree, extracted from the real object graph in visiting order. -/
+
+inductive ATree (V : Type) where
+  | node (asserts : List (Asrt V)) (children : List (ATree V))
+  deriving Inhabited
+
+mutual
+/-- the recursion of `instance_for_arguments`: every node's assertions, children after the node -/
+def checkTree {V} [Inhabited V] (ops : Ops V) (ρ : Nat → Inst V) : ATree V → Bool
+  | .node asserts children => asserts.all (evalA ops ρ) && checkTrees ops ρ children
+def checkTrees {V} [Inhabited V] (ops : Ops V) (ρ : Nat → Inst V) : List (ATree V) → Bool
+  | [] => true
+  | t :: rest => checkTree ops ρ t && checkTrees ops ρ rest
+end
+
+mutual
+/-- all assertions attached anywhere, in visiting order -/
+def ATree.flatten {V} : ATree V → List (Asrt V)
+  | .node asserts children => asserts ++ flattenTrees children
+def flattenTrees {V} : List (ATree V) → List (Asrt V)
+  | [] => []
+  | t :: rest => t.flatten ++ flattenTrees rest
+end
+
+/-- `instance_from_vector` with the assertions given where they are attached -/
+def gateTree {V} [Inhabited V] (ops : Ops V) (t : Node V) (lims : List (V × V)) (tr : ATree V)
+    (v : List V) (ignore : Bool) : Except GateErr (Inst V) :=
+  if v.length ≠ count t then .error .length
+  else if !ignore && !limitsOk ops lims v then .error .priorLimit
+  else if !ignore && !(checkTree ops (valOf (argsOfVector t v)) tr) then .error .fit
+  else .ok (instFromVector ops t v)
+
+end AF
